@@ -221,6 +221,9 @@ func hasMap(l *Loaded, name string) bool {
 
 func (c *ctx) valOpts() gen.ValOpts {
 	o := gen.ValOpts{MaxDepth: 3, DefaultContent: 15, QuietFloat32: true}
+	if c.has("presence") && c.r.Intn(2) == 0 {
+		o.DefaultContent = 100
+	}
 	switch c.r.Intn(6) {
 	case 0:
 		o.DefaultContent = 100
@@ -284,6 +287,12 @@ func (c *ctx) streamM() error {
 		}
 		for _, n := range gen.Roots(l.File) {
 			if l.File.Modelled(n) && l.New[n] != nil {
+				if c.has("maps") && !hasMap(l, n) {
+					continue
+				}
+				if c.has("fresh") && l.Source != "fresh" {
+					continue
+				}
 				roots = append(roots, root{l, n})
 			}
 		}
